@@ -271,7 +271,8 @@ def run(repo, chk):
         sp = [e for e in ev if e.kind == 'assert' and 'self.stack == start_point' in e.text]
         chk.expect(bool(sp), 'C08.L3', 'gen_block[CodeBlock]::stack restored', 'assert self.stack == start_point', GEN)
     from . import c16
-    c16.run(repo, Remap(chk, {'C16.E6': 'C08.L3'}))
+    # the skip decision relies on the exit-mode analysis never under-reporting normal completion
+    c16.run(repo, Remap(chk, {'C16.E6': 'C08.L3', 'C16.E1': 'C08.L3'}))
 
     # ---------------- L4 -----------------------------------------------------------------
     pp = gf.inlined('pop')
